@@ -1,0 +1,56 @@
+//! Verification hooks, only compiled with `--cfg bmwill_anemo_verif`.
+//!
+//! Nothing in here changes the behaviour of the library: the hooks let an external harness inject
+//! an in-memory datagram socket, pin the random tick jitter, observe the connection manager's
+//! accept loop and reach a few crate-private functions (wire codecs, certificate verifiers, the
+//! active-peer set) directly.
+
+use std::cell::{Cell, RefCell};
+use std::sync::atomic::{AtomicU64, Ordering};
+use std::sync::Arc;
+use std::time::Duration;
+
+thread_local! {
+    static INJECTED_SOCKET: RefCell<Option<Arc<dyn quinn::AsyncUdpSocket>>> = const { RefCell::new(None) };
+    static JITTER_OVERRIDE: Cell<Option<Duration>> = const { Cell::new(None) };
+}
+
+/// The next `Endpoint::new` on this thread uses `socket` instead of the UDP socket it was given.
+pub fn inject_socket(socket: Arc<dyn quinn::AsyncUdpSocket>) {
+    INJECTED_SOCKET.with(|slot| *slot.borrow_mut() = Some(socket));
+}
+
+pub(crate) fn take_injected_socket() -> Option<Arc<dyn quinn::AsyncUdpSocket>> {
+    INJECTED_SOCKET.with(|slot| slot.borrow_mut().take())
+}
+
+/// Connection managers started on this thread use `jitter` instead of a random tick jitter.
+pub fn set_jitter_override(jitter: Option<Duration>) {
+    JITTER_OVERRIDE.with(|slot| slot.set(jitter));
+}
+
+pub(crate) fn jitter_override() -> Option<Duration> {
+    JITTER_OVERRIDE.with(|slot| slot.get())
+}
+
+static CONSECUTIVE_ACCEPT_NONE: AtomicU64 = AtomicU64::new(0);
+static TOTAL_ACCEPT_NONE: AtomicU64 = AtomicU64::new(0);
+
+pub(crate) fn note_accept(some: bool) {
+    if some {
+        CONSECUTIVE_ACCEPT_NONE.store(0, Ordering::Relaxed);
+    } else {
+        CONSECUTIVE_ACCEPT_NONE.fetch_add(1, Ordering::Relaxed);
+        TOTAL_ACCEPT_NONE.fetch_add(1, Ordering::Relaxed);
+    }
+}
+
+/// (consecutive, total) number of times a connection manager in this process saw `accept()`
+/// yield `None`.
+pub fn accept_none_counters() -> (u64, u64) {
+    (
+        CONSECUTIVE_ACCEPT_NONE.load(Ordering::Relaxed),
+        TOTAL_ACCEPT_NONE.load(Ordering::Relaxed),
+    )
+}
+
